@@ -3,7 +3,7 @@
    4 digit strings; 5 integers; 6 the first word; 7 digit generation error bounds; 8 reading %e / %f;
    9 the scientific and fixed branches of _format_float; 10 str.strip, the scanner's alphabet;
    11 float(): flog2, nearest double, 17 digits round-trip; 12 reading %g; 13 the float theorem;
-   14 integer / converted nodes, int(round()), the precision loop.
+   14 integer / converted nodes, int(round()), the precision loop; 15 reachable formatters.
    No axioms, no admits. *)
 From Coq Require Import List String Ascii ZArith QArith Qabs Qpower Bool Lia Lqa.
 From MPV Require Import Model.Wire Model.Num.
@@ -152,8 +152,13 @@ Qed.
 (* ------------------------------------------------------------------------------------------ *)
 (* 3. reading back what was written: the first blank-delimited word, as an exact decimal *)
 
+(* a word ends at white space, at a '$' (comment) or at an '&' (continuation) *)
+Definition is_stop (a : ascii) : bool :=
+  orb (is_ws a) (orb (Ascii.eqb a "$"%char) (Ascii.eqb a "&"%char)).
+Definition starts_stop (s : string) : bool :=
+  match s with String a _ => is_stop a | EmptyString => false end.
 Fixpoint take_word (s : string) : string :=
-  match s with String a r => if is_ws a then "" else String a (take_word r) | EmptyString => "" end.
+  match s with String a r => if is_stop a then "" else String a (take_word r) | EmptyString => "" end.
 Definition first_word (s : string) : string := take_word (lstrip_ws s).
 Definition written_number (s : string) : option (bool * Z * Z) := read_number (first_word s).
 
@@ -377,48 +382,63 @@ Qed.
 (* ------------------------------------------------------------------------------------------ *)
 (* 6. the first word of what format() wrote *)
 
-Fixpoint no_ws (s : string) : bool :=
-  match s with EmptyString => true | String a r => andb (negb (is_ws a)) (no_ws r) end.
+Fixpoint no_stop (s : string) : bool :=
+  match s with EmptyString => true | String a r => andb (negb (is_stop a)) (no_stop r) end.
+
+Lemma stop_not_ws : forall a, is_stop a = false -> is_ws a = false.
+Proof. intros a H. unfold is_stop in H. apply orb_false_iff in H. apply H. Qed.
+
+Lemma starts_ws_stop : forall t, starts_ws t = true -> starts_stop t = true.
+Proof. intros [|a t] H; [discriminate|]. cbn in *. unfold is_stop. now rewrite H. Qed.
+
+Lemma tail_ws_stop : forall t, (t = "" \/ starts_ws t = true) -> (t = "" \/ starts_stop t = true).
+Proof. intros t [H|H]; [now left | right; now apply starts_ws_stop]. Qed.
 
 Lemma take_word_app : forall s tail,
-  no_ws s = true -> (tail = "" \/ starts_ws tail = true) -> take_word (s ++ tail) = s.
+  no_stop s = true -> (tail = "" \/ starts_stop tail = true) -> take_word (s ++ tail) = s.
 Proof.
-  induction s as [|a s IH]; intros tail H T; cbn in *.
-  - destruct T as [->|T]; [reflexivity|]. destruct tail as [|b t]; [reflexivity|].
-    cbn in T. cbn [take_word]. now rewrite T.
-  - apply andb_true_iff in H. destruct H as [Ha Hs]. apply negb_true_iff in Ha. rewrite Ha.
-    now rewrite (IH tail Hs T).
+  induction s as [|a s IH]; intros tail H T.
+  - cbn [append]. destruct T as [->|T]; [reflexivity|]. destruct tail as [|b t]; [reflexivity|].
+    cbn [starts_stop] in T. cbn [take_word]. now rewrite T.
+  - cbn [no_stop] in H. apply andb_true_iff in H. destruct H as [Ha Hs]. apply negb_true_iff in Ha.
+    cbn [append take_word]. rewrite Ha. now rewrite (IH tail Hs T).
 Qed.
 
-Lemma lstrip_no_ws : forall s, s <> "" -> no_ws s = true -> lstrip_ws s = s.
+Lemma lstrip_no_stop : forall s, s <> "" -> no_stop s = true -> lstrip_ws s = s.
 Proof.
-  intros [|a s] N H; [congruence|]. cbn in *. apply andb_true_iff in H. destruct H as [Ha _].
-  apply negb_true_iff in Ha. now rewrite Ha.
+  intros [|a s] N H; [congruence|]. cbn [no_stop] in H. apply andb_true_iff in H. destruct H as [Ha _].
+  apply negb_true_iff in Ha. cbn [lstrip_ws]. now rewrite (stop_not_ws a Ha).
 Qed.
 
 Lemma digit_not_ws : forall a, is_digit a = true -> is_ws a = false.
 Proof. intros a H. destruct a as [[] [] [] [] [] [] [] []]; try reflexivity; discriminate. Qed.
 
-Lemma all_digits_no_ws : forall s, all_digits s = true -> no_ws s = true.
+Lemma digit_not_stop : forall a, is_digit a = true -> is_stop a = false.
+Proof. intros a H. destruct a as [[] [] [] [] [] [] [] []]; try reflexivity; discriminate. Qed.
+
+Lemma all_digits_no_stop : forall s, all_digits s = true -> no_stop s = true.
 Proof.
-  induction s as [|a s IH]; intros H; cbn in *; [reflexivity|].
-  apply andb_true_iff in H. destruct H as [Ha Hs]. rewrite (digit_not_ws a Ha), (IH Hs). reflexivity.
+  induction s as [|a s IH]; intros H; [reflexivity|].
+  cbn [all_digits] in H. apply andb_true_iff in H. destruct H as [Ha Hs].
+  cbn [no_stop]. rewrite (digit_not_stop a Ha), (IH Hs). reflexivity.
 Qed.
 
-Lemma no_ws_app : forall a b, no_ws (a ++ b) = andb (no_ws a) (no_ws b).
-Proof. induction a as [|x a IH]; intros b; cbn; [reflexivity | now rewrite IH, andb_assoc]. Qed.
+Lemma no_stop_app : forall a b, no_stop (a ++ b) = andb (no_stop a) (no_stop b).
+Proof.
+  induction a as [|x a IH]; intros b; [reflexivity|]. cbn [append no_stop]. now rewrite IH, andb_assoc.
+Qed.
 
 (* a text that is an optional single blank followed by a blank-free word *)
 Lemma first_word_drop_blank : forall w tail,
-  drop_blank w <> "" -> no_ws (drop_blank w) = true -> (tail = "" \/ starts_ws tail = true) ->
+  drop_blank w <> "" -> no_stop (drop_blank w) = true -> (tail = "" \/ starts_stop tail = true) ->
   first_word (w ++ tail) = drop_blank w.
 Proof.
   intros w tail N H T. unfold first_word.
-  assert (G : forall u, u <> "" -> no_ws u = true -> take_word (lstrip_ws (u ++ tail)) = u).
-  { intros u Nu Hu. destruct u as [|a u]; [congruence|]. cbn in Hu. apply andb_true_iff in Hu.
-    destruct Hu as [Ha Hu]. apply negb_true_iff in Ha. cbn [append lstrip_ws]. rewrite Ha.
+  assert (G : forall u, u <> "" -> no_stop u = true -> take_word (lstrip_ws (u ++ tail)) = u).
+  { intros u Nu Hu. destruct u as [|a u]; [congruence|]. cbn [no_stop] in Hu. apply andb_true_iff in Hu.
+    destruct Hu as [Ha Hu]. apply negb_true_iff in Ha. cbn [append lstrip_ws]. rewrite (stop_not_ws a Ha).
     change (String a (u ++ tail)) with (String a u ++ tail). apply take_word_app; [|exact T].
-    cbn. now rewrite Ha, Hu. }
+    cbn [no_stop]. now rewrite Ha, Hu. }
   destruct w as [|a w]; [cbn in N; congruence|].
   destruct (Ascii.eqb a " ") eqn:E.
   - apply Ascii.eqb_eq in E. subst a. cbn [drop_blank] in *. cbn [append lstrip_ws].
@@ -428,45 +448,68 @@ Proof.
     rewrite D in *. apply G; assumption.
 Qed.
 
-Lemma no_ws_fmt_d : forall sopt width n,
-  drop_blank (fmt_d sopt width n) <> "" /\ no_ws (drop_blank (fmt_d sopt width n)) = true.
+Lemma no_stop_fmt_d : forall sopt width n,
+  drop_blank (fmt_d sopt width n) <> "" /\ no_stop (drop_blank (fmt_d sopt width n)) = true.
 Proof.
   intros sopt width n. unfold fmt_d, zfill.
   pose proof (show_nonempty (Z.abs n)) as Hne.
   pose proof (all_digits_show (Z.abs n)) as Hdb0.
   remember (show_nat_Z (Z.abs n)) as body eqn:Hb. clear Hb.
-  assert (Hd : forall w, no_ws (zeros w ++ body) = true).
-  { intros w. apply all_digits_no_ws. rewrite all_digits_app, all_digits_zeros. exact Hdb0. }
+  assert (Hd : forall w, no_stop (zeros w ++ body) = true).
+  { intros w. apply all_digits_no_stop. rewrite all_digits_app, all_digits_zeros. exact Hdb0. }
   assert (Hn : forall w, zeros w ++ body <> "").
   { intros w E. apply (f_equal String.length) in E. rewrite length_app_s in E.
     destruct body; [congruence | cbn in E; lia]. }
   unfold sign_text. destruct (n <? 0).
-  - cbn [append drop_blank]. split; [discriminate|]. cbn. apply Hd.
+  - cbn [append drop_blank]. split; [discriminate|]. cbn [no_stop]. change (is_stop "-") with false. apply Hd.
   - destruct (Ascii.eqb sopt "+"); [|destruct (Ascii.eqb sopt " ")].
-    + cbn [append drop_blank]. split; [discriminate|]. cbn. apply Hd.
+    + cbn [append drop_blank]. split; [discriminate|]. cbn [no_stop]. change (is_stop "+") with false. apply Hd.
     + cbn [append drop_blank]. split; [apply Hn | apply Hd].
     + cbn [append].
-      assert (Hdb : forall s, no_ws s = true -> drop_blank s = s).
-      { intros [|a s] H; [reflexivity|]. cbn in H. apply andb_true_iff in H. destruct H as [Ha _].
+      assert (Hdb : forall s, no_stop s = true -> drop_blank s = s).
+      { intros [|a s] H; [reflexivity|]. cbn [no_stop] in H. apply andb_true_iff in H. destruct H as [Ha _].
         unfold drop_blank. destruct a as [[] [] [] [] [] [] [] []]; try reflexivity. discriminate. }
       rewrite Hdb by apply Hd. split; [apply Hn | apply Hd].
 Qed.
 
+(* what follows the node: nothing; or a blank string first (and no empty padding strings); or something
+   that is not a blank string and starts with white space, '$' or '&' (a newline, a '$' comment) *)
+Definition followed_ok (l : list pnode) : Prop :=
+  l = [] \/
+  (exists p rest, l = p :: rest /\ pnode_is_space p = true /\
+                  Forall (fun q => pnode_text q <> "") (p :: rest)) \/
+  (exists p rest, l = p :: rest /\ pnode_is_space p = false /\ starts_stop (pnode_text p) = true).
+
+Lemma starts_stop_app : forall a b, starts_stop a = true -> starts_stop (a ++ b) = true.
+Proof. intros [|x a] b H; [discriminate | exact H]. Qed.
+
 (* what follows the number text in format()'s result *)
-Lemma finish_tail : forall nd f temp,
-  (pad_nodes nd = [] \/
-   exists p rest, pad_nodes nd = p :: rest /\ pnode_is_space p = true /\
-                  Forall (fun q => pnode_text q <> "") rest) ->
-  exists tail, finish nd f temp = temp ++ tail /\ (tail = "" \/ starts_ws tail = true).
+Lemma finish_tail : forall nd f temp, followed_ok (pad_nodes nd) ->
+  exists tail, finish nd f temp = temp ++ tail /\ (tail = "" \/ starts_stop tail = true).
 Proof.
-  intros nd f temp [E|(p & rest & E & S & N)].
+  intros nd f temp [E|[(p & rest & E & S & N)|(p & rest & E & S & T)]].
   - unfold finish. rewrite E. unfold ljust. rewrite !sapp_nil_r.
     eexists. split; [reflexivity|].
     destruct (Z_lt_le_dec 0 (value_length f - slen temp)).
-    + right. now apply blanks_pos_starts.
+    + right. apply starts_ws_stop. now apply blanks_pos_starts.
     + left. now apply blanks_nonpos.
-  - destruct (finish_no_fusion nd f temp p rest E S N) as (tail & H1 & H2).
-    exists tail. split; [exact H1 | now right].
+  - assert (N' : Forall (fun q => pnode_text q <> "") rest) by (inversion N; assumption).
+    destruct (finish_no_fusion nd f temp p rest E S N') as (tail & H1 & H2).
+    exists tail. split; [exact H1 | right; now apply starts_ws_stop].
+  - unfold finish. rewrite E, S. unfold ljust. cbn [append]. rewrite sapp_assoc.
+    eexists. split; [reflexivity|]. right.
+    destruct (Z_lt_le_dec 0 (value_length f - slen temp)).
+    + apply starts_stop_app. apply starts_ws_stop. now apply blanks_pos_starts.
+    + rewrite blanks_nonpos by lia. cbn [append]. rewrite pad_text_cons. now apply starts_stop_app.
+Qed.
+
+Lemma followed_ok_pad_text : forall l, followed_ok l -> pad_text l = "" \/ starts_stop (pad_text l) = true.
+Proof.
+  intros l [->|[(p & rest & -> & S & N)|(p & rest & -> & S & T)]]; [now left|right|right].
+  - rewrite pad_text_cons. apply starts_stop_app. apply starts_ws_stop. inversion N as [|? ? Hp _]; subst.
+    destruct p as [s|s]; [|discriminate]. cbn in S. apply andb_true_iff in S. destruct S as [S _].
+    apply all_ws_starts; [exact S | exact Hp].
+  - rewrite pad_text_cons. now apply starts_stop_app.
 Qed.
 
 (* integer nodes: whenever format() does not take the "unchanged" short cut, the text is n *)
@@ -492,9 +535,7 @@ Lemma int_node_exact : forall nd n s,
   n_isfloat nd = false ->
   value_changed (set_value nd (VInt n)) = Ok true ->
   format (set_value nd (VInt n)) = Ok s ->
-  (pad_nodes (set_value nd (VInt n)) = [] \/
-   exists p rest, pad_nodes (set_value nd (VInt n)) = p :: rest /\ pnode_is_space p = true /\
-                  Forall (fun q => pnode_text q <> "") rest) ->
+  followed_ok (pad_nodes (set_value nd (VInt n))) ->
   written_number s = Some (n <? 0, Z.abs n, 0).
 Proof.
   intros nd n s Hf Hc H P.
@@ -502,7 +543,7 @@ Proof.
   destruct (finish_tail _ (match reverse_formatting (set_value nd (VInt n)) with
                             | Some f => f | None => default_fmt end) (fmt_d sopt width n) P)
     as (tail & -> & T).
-  unfold written_number. destruct (no_ws_fmt_d sopt width n) as [N W].
+  unfold written_number. destruct (no_stop_fmt_d sopt width n) as [N W].
   rewrite first_word_drop_blank by assumption. apply fmt_d_exact.
 Qed.
 
@@ -1205,7 +1246,7 @@ Proof.
 Qed.
 
 Lemma first_word_strip : forall t tail,
-  strip t <> "" -> no_ws (strip t) = true -> (tail = "" \/ starts_ws tail = true) ->
+  strip t <> "" -> no_stop (strip t) = true -> (tail = "" \/ starts_stop tail = true) ->
   first_word (t ++ tail) = strip t.
 Proof.
   intros t tail N W T. unfold first_word, strip in *.
@@ -1215,12 +1256,13 @@ Proof.
   rewrite E1 at 1. rewrite sapp_assoc, lstrip_all_ws_app by exact E2.
   rewrite E3, sapp_assoc.
   destruct core as [|c core'] eqn:EC; [congruence|].
-  cbn in W. apply andb_true_iff in W. destruct W as [Wc W']. apply negb_true_iff in Wc.
-  cbn [append lstrip_ws]. rewrite Wc.
+  cbn [no_stop] in W. apply andb_true_iff in W. destruct W as [Wc W']. apply negb_true_iff in Wc.
+  cbn [append lstrip_ws]. rewrite (stop_not_ws c Wc).
   change (String c (core' ++ suf ++ tail)) with (String c core' ++ (suf ++ tail)).
   apply take_word_app.
-  - cbn. now rewrite Wc, W'.
-  - destruct suf as [|b suf']; [exact T|]. right. cbn in E4. apply andb_true_iff in E4. cbn. apply E4.
+  - cbn [no_stop]. now rewrite Wc, W'.
+  - destruct suf as [|b suf']; [exact T|]. right. cbn [all_ws] in E4. apply andb_true_iff in E4.
+    apply starts_ws_stop. cbn. apply E4.
 Qed.
 
 Lemma span_digits_spec : forall s d t, span_digits s = (d, t) -> s = d ++ t /\ all_digits d = true.
@@ -1233,7 +1275,7 @@ Proof.
     + inversion H; subst. auto.
 Qed.
 
-Lemma sign_not_ws : forall a, is_sign a = true -> is_ws a = false.
+Lemma sign_not_ws : forall a, is_sign a = true -> is_stop a = false.
 Proof.
   intros a H. unfold is_sign in H. apply orb_true_iff in H.
   destruct H as [H|H]; apply Ascii.eqb_eq in H; subst; reflexivity.
@@ -1247,19 +1289,19 @@ Proof.
   - destruct (is_sign a) eqn:E; inversion H; subst; cbn; auto.
 Qed.
 
-Lemma no_ws_sign_str : forall sg, match sg with Some a => is_sign a = true | None => True end ->
-  no_ws (sign_str sg) = true.
-Proof. intros [a|] H; cbn; [|reflexivity]. now rewrite (sign_not_ws a H). Qed.
+Lemma no_stop_sign_str : forall sg, match sg with Some a => is_sign a = true | None => True end ->
+  no_stop (sign_str sg) = true.
+Proof. intros [a|] H; cbn [sign_str no_stop]; [|reflexivity]. now rewrite (sign_not_ws a H). Qed.
 
 (* a text the scanner accepts has no white space in it and is not empty *)
-Lemma scan_no_ws : forall letters s sc,
-  (forall a, letters a = true -> is_ws a = false) ->
-  scan_number letters s = Some sc -> no_ws s = true /\ s <> "".
+Lemma scan_no_stop : forall letters s sc,
+  (forall a, letters a = true -> is_stop a = false) ->
+  scan_number letters s = Some sc -> no_stop s = true /\ s <> "".
 Proof.
   intros letters s sc HL H. unfold scan_number in H.
   destruct (take_sign s) as [sg r0] eqn:TS. destruct (take_sign_spec _ _ _ TS) as [Es Hsg].
   destruct (span_digits r0) as [d1 r1] eqn:S1. destruct (span_digits_spec _ _ _ S1) as [E1 A1].
-  assert (X : exists dot d2 r2, r1 = dot ++ d2 ++ r2 /\ no_ws dot = true /\ all_digits d2 = true /\
+  assert (X : exists dot d2 r2, r1 = dot ++ d2 ++ r2 /\ no_stop dot = true /\ all_digits d2 = true /\
      (let '(dt, d2', r2') :=
         match r1 with
         | String "."%char t => let (d2, r2) := span_digits t in (true, d2, r2)
@@ -1279,16 +1321,16 @@ Proof.
             end) as [[dt d2'] r2'] eqn:M.
   inversion X; subst d2' r2'. clear X.
   destruct (andb (String.eqb d1 "") (String.eqb d2 "")) eqn:Emp; [discriminate|].
-  assert (Pre : no_ws (sign_str sg ++ d1 ++ dot ++ d2) = true).
-  { rewrite !no_ws_app, no_ws_sign_str, Wdot, !all_digits_no_ws by assumption. reflexivity. }
+  assert (Pre : no_stop (sign_str sg ++ d1 ++ dot ++ d2) = true).
+  { rewrite !no_stop_app, no_stop_sign_str, Wdot, !all_digits_no_stop by assumption. reflexivity. }
   assert (Ne : sign_str sg ++ d1 ++ dot ++ d2 <> "").
   { intros C. apply (f_equal String.length) in C. rewrite !length_app_s in C. cbn in C.
     destruct d1; [|cbn in C; lia]. destruct d2; [|cbn in C; lia]. cbn in Emp. discriminate. }
   assert (Full : s = (sign_str sg ++ d1 ++ dot ++ d2) ++ r2).
   { rewrite Es, E1, Er1. rewrite !sapp_assoc. reflexivity. }
-  assert (Done : no_ws r2 = true -> no_ws s = true /\ s <> "").
+  assert (Done : no_stop r2 = true -> no_stop s = true /\ s <> "").
   { intros W. split.
-    - rewrite Full, no_ws_app, Pre, W. reflexivity.
+    - rewrite Full, no_stop_app, Pre, W. reflexivity.
     - rewrite Full. intros C. apply Ne. destruct (sign_str sg ++ d1 ++ dot ++ d2); [reflexivity | discriminate]. }
   apply Done. clear Done.
   destruct r2 as [|a t]; [reflexivity|].
@@ -1297,17 +1339,17 @@ Proof.
     destruct (span_digits t1) as [ed t2] eqn:S3. destruct (span_digits_spec _ _ _ S3) as [E3 A3].
     destruct (andb (negb (String.eqb ed "")) (String.eqb t2 "")) eqn:C; [|discriminate].
     apply andb_true_iff in C. destruct C as [_ C]. apply String.eqb_eq in C. subst t2.
-    cbn [no_ws]. rewrite (HL a La). cbn [negb andb].
-    rewrite Et, E3, !no_ws_app, no_ws_sign_str, all_digits_no_ws by assumption. reflexivity.
+    cbn [no_stop]. rewrite (HL a La). cbn [negb andb].
+    rewrite Et, E3, !no_stop_app, no_stop_sign_str, all_digits_no_stop by assumption. reflexivity.
   - destruct (is_sign a) eqn:Sa; [|discriminate].
     destruct (span_digits t) as [ed t2] eqn:S3. destruct (span_digits_spec _ _ _ S3) as [E3 A3].
     destruct (andb (negb (String.eqb ed "")) (String.eqb t2 "")) eqn:C; [|discriminate].
     apply andb_true_iff in C. destruct C as [_ C]. apply String.eqb_eq in C. subst t2.
-    cbn [no_ws]. rewrite (sign_not_ws a Sa). cbn [negb andb].
-    rewrite E3, no_ws_app, all_digits_no_ws by assumption. reflexivity.
+    cbn [no_stop]. rewrite (sign_not_ws a Sa). cbn [negb andb].
+    rewrite E3, no_stop_app, all_digits_no_stop by assumption. reflexivity.
 Qed.
 
-Lemma letter_eE_not_ws : forall a, letter_eE a = true -> is_ws a = false.
+Lemma letter_eE_not_ws : forall a, letter_eE a = true -> is_stop a = false.
 Proof.
   intros a H. unfold letter_eE in H. apply orb_true_iff in H.
   destruct H as [H|H]; apply Ascii.eqb_eq in H; subst; reflexivity.
@@ -1339,17 +1381,11 @@ Proof.
 Qed.
 
 Lemma fortran_scan_read : forall s sc, fortran_scan s = Some sc ->
-  read_number s = Some (scan_neg sc, scan_mant sc, scan_k sc) /\ no_ws s = true /\ s <> "".
+  read_number s = Some (scan_neg sc, scan_mant sc, scan_k sc) /\ no_stop s = true /\ s <> "".
 Proof.
-  intros s sc H. unfold fortran_scan in H.
-  destruct (scan_number letter_eE s) as [sc'|] eqn:S; [|discriminate].
-  assert (sc' = sc).
-  { destruct (s_eletter sc'); [inversion H; reflexivity|].
-    destruct (s_esign sc'); [|inversion H; reflexivity].
-    destruct (andb (s_dot sc') (String.eqb (s_d2 sc') "")); [discriminate | inversion H; reflexivity]. }
-  subst sc'. split.
+  intros s sc S. unfold fortran_scan in S. split.
   - unfold read_number. now rewrite (scan_eE_eEdD s sc S).
-  - exact (scan_no_ws letter_eE s sc letter_eE_not_ws S).
+  - exact (scan_no_stop letter_eE s sc letter_eE_not_ws S).
 Qed.
 
 (* ------------------------------------------------------------------------------------------ *)
@@ -1883,11 +1919,6 @@ Definition dec_to_dbl (r : bool * Z * Z) : option dbl :=
 (* the first word of the written text is a number that is read as the double y *)
 Definition reads_as (s : string) (y : dbl) : Prop :=
   exists r, written_number s = Some r /\ dec_to_dbl r = Some y.
-(* what follows the node: nothing, or a blank first; no empty padding strings *)
-Definition followed_ok (l : list pnode) : Prop :=
-  l = [] \/ exists p rest, l = p :: rest /\ pnode_is_space p = true /\
-                           Forall (fun q => pnode_text q <> "") (p :: rest).
-
 (* math.isclose is symmetric *)
 Lemma d_eqb_sym : forall a b, d_eqb a b = d_eqb b a.
 Proof. intros a b. unfold d_eqb. rewrite (Z.min_comm (dexp a) (dexp b)). apply Z.eqb_sym. Qed.
@@ -1976,29 +2007,13 @@ Proof.
 Qed.
 
 Lemma first_word_plain : forall s tail,
-  s <> "" -> no_ws s = true -> (tail = "" \/ starts_ws tail = true) -> first_word (s ++ tail) = s.
+  s <> "" -> no_stop s = true -> (tail = "" \/ starts_stop tail = true) -> first_word (s ++ tail) = s.
 Proof.
   intros s tail N W T. unfold first_word.
-  destruct s as [|a u]; [congruence|]. cbn in W. apply andb_true_iff in W.
-  destruct W as [Ha Hu]. apply negb_true_iff in Ha. cbn [append lstrip_ws]. rewrite Ha.
+  destruct s as [|a u]; [congruence|]. cbn [no_stop] in W. apply andb_true_iff in W.
+  destruct W as [Ha Hu]. apply negb_true_iff in Ha. cbn [append lstrip_ws]. rewrite (stop_not_ws a Ha).
   change (String a (u ++ tail)) with (String a u ++ tail). apply take_word_app; [|exact T].
-  cbn. now rewrite Ha, Hu.
-Qed.
-
-Lemma followed_ok_finish : forall nd f temp, followed_ok (pad_nodes nd) ->
-  exists tail, finish nd f temp = temp ++ tail /\ (tail = "" \/ starts_ws tail = true).
-Proof.
-  intros nd f temp [E|(p & rest & E & S & N)]; apply finish_tail.
-  - now left.
-  - right. exists p, rest. split; [exact E|]. split; [exact S|]. inversion N; assumption.
-Qed.
-
-Lemma followed_ok_pad_text : forall l, followed_ok l -> pad_text l = "" \/ starts_ws (pad_text l) = true.
-Proof.
-  intros l [->|(p & rest & -> & S & N)]; [now left|right].
-  rewrite pad_text_cons. apply starts_ws_app. inversion N as [|? ? Hp _]; subst.
-  destruct p as [s|s]; [|discriminate]. cbn in S. apply andb_true_iff in S. destruct S as [S _].
-  apply all_ws_starts; [exact S | exact Hp].
+  cbn [no_stop]. now rewrite Ha, Hu.
 Qed.
 
 Lemma make_node_float_inv : forall tok pad np nd,
@@ -2022,11 +2037,11 @@ Proof.
   destruct (mk_round _ _ _) as [y|]; [inversion H; reflexivity | discriminate].
 Qed.
 
-Lemma read_no_ws : forall w r, read_number w = Some r -> no_ws w = true /\ w <> "".
+Lemma read_no_stop : forall w r, read_number w = Some r -> no_stop w = true /\ w <> "".
 Proof.
   intros w r H. unfold read_number in H.
   destruct (scan_number letter_eEdD w) as [sc|] eqn:S; [|discriminate].
-  apply (scan_no_ws letter_eEdD w sc); [|exact S].
+  apply (scan_no_stop letter_eEdD w sc); [|exact S].
   intros a Ha. unfold letter_eEdD, letter_eE in Ha.
   repeat (apply orb_true_iff in Ha; destruct Ha as [Ha|Ha]); apply Ascii.eqb_eq in Ha; subst; reflexivity.
 Qed.
@@ -2060,7 +2075,7 @@ Proof.
       as [reversed f] eqn:RF.
     destruct (render_temp nd' reversed f (VFlt x)) as [temp|] eqn:RT; [|discriminate].
     cbn [bind] in H. inversion H; subst s; clear H.
-    destruct (followed_ok_finish nd' f temp FO) as (tail & -> & T).
+    destruct (finish_tail nd' f temp FO) as (tail & -> & T).
     unfold render_temp in RT.
     destruct (can_float_to_int nd' f (VFlt x)) as [toint|] eqn:CF; [|discriminate]. cbn [bind] in RT.
     rewrite Hf' in RT. cbn [negb orb] in RT. destruct toint.
@@ -2072,7 +2087,7 @@ Proof.
       destruct (to_dbl (VInt n)) as [a|] eqn:TA; [|discriminate]. cbn [to_dbl] in CF.
       injection CF as CL. exists a. split; [|exact CL].
       exists (n <? 0, Z.abs n, 0). split; [|rewrite dec_to_dbl_int; exact TA].
-      unfold written_number. destruct (no_ws_fmt_d (f_sign f) (zero_padding f) n) as [N W].
+      unfold written_number. destruct (no_stop_fmt_d (f_sign f) (zero_padding f) n) as [N W].
       rewrite first_word_drop_blank by assumption. apply fmt_d_exact.
     + (* the float branch *)
       cbn [to_dbl] in RT.
@@ -2082,7 +2097,7 @@ Proof.
         exists y. split; [|exact CL]. exists (scan_neg sc, scan_mant sc, scan_k sc). split; [|exact DD].
         unfold written_number. rewrite first_word_strip by assumption. exact RN.
       * destruct (fallback_exact f x temp Hd FB) as (r & y & RN & DD & CL).
-        destruct (read_no_ws _ r RN) as [W N].
+        destruct (read_no_stop _ r RN) as [W N].
         exists y. split; [|exact CL]. exists r. split; [|exact DD].
         unfold written_number. rewrite first_word_drop_blank by assumption. exact RN.
   - (* unchanged: the old token is kept; the value is within the tolerance of the token's *)
@@ -2130,7 +2145,7 @@ Proof.
 Qed.
 
 Lemma py_int_of_string_read : forall t i, py_int_of_string t = Ok i ->
-  exists neg M, read_number t = Some (neg, M, 0) /\ (if neg then - M else M) = i /\ no_ws t = true /\ t <> "".
+  exists neg M, read_number t = Some (neg, M, 0) /\ (if neg then - M else M) = i /\ no_stop t = true /\ t <> "".
 Proof.
   intros t i H. unfold py_int_of_string in H.
   destruct (take_sign t) as [sg r] eqn:TS. destruct (take_sign_spec _ _ _ TS) as [Et Hsg].
@@ -2142,7 +2157,7 @@ Proof.
   { rewrite Et. unfold sign_str. apply (read_int_text sg d Hsg Ad C1). }
   exists (neg_flag sg), (digits_val d). split; [exact R|]. split.
   - inversion H. unfold neg_flag. destruct sg as [a|]; [destruct (Ascii.eqb a "-")|]; reflexivity.
-  - exact (read_no_ws t _ R).
+  - exact (read_no_stop t _ R).
 Qed.
 
 Lemma make_node_int_inv : forall tok pad np nd,
@@ -2158,13 +2173,6 @@ Proof.
     split; [reflexivity|]. split; [reflexivity|]. right. exists t, i. auto.
 Qed.
 
-Lemma followed_ok_weak : forall l, followed_ok l ->
-  l = [] \/ exists p rest, l = p :: rest /\ pnode_is_space p = true /\ Forall (fun q => pnode_text q <> "") rest.
-Proof.
-  intros l [E|(p & rest & E & S & N)]; [now left|right].
-  exists p, rest. split; [exact E|]. split; [exact S|]. inversion N; assumption.
-Qed.
-
 (* THE INTEGER THEOREM: an integer node writes the integer that was set, digit for digit, whatever token
    it was made from *)
 Theorem int_node_exact_full : forall tok pad np nd n s,
@@ -2177,7 +2185,7 @@ Proof.
   destruct (make_node_int_inv tok pad np nd MK) as (Hf & Htok & Hog).
   destruct (value_changed (set_value nd (VInt n))) as [[|]|] eqn:VC.
   - exists (n <? 0), (Z.abs n). split.
-    + apply (int_node_exact nd n s Hf VC H). apply followed_ok_weak. exact FO.
+    + apply (int_node_exact nd n s Hf VC H). exact FO.
     + destruct (n <? 0) eqn:E; [apply Z.ltb_lt in E | apply Z.ltb_ge in E]; lia.
   - unfold format in H. rewrite VC in H. cbn [bind negb] in H. inversion H; subst s; clear H.
     unfold value_changed in VC.
@@ -2224,7 +2232,7 @@ Proof.
   intros tok pad np nd n s MK FO H.
   destruct (make_node_conv_inv tok pad np nd MK) as (Hf & Htok & Hog).
   destruct (value_changed (set_value nd (VInt n))) as [[|]|] eqn:VC.
-  - left. apply (int_node_exact nd n s Hf VC H). apply followed_ok_weak. exact FO.
+  - left. apply (int_node_exact nd n s Hf VC H). exact FO.
   - right. unfold format in H. rewrite VC in H. cbn [bind negb] in H. inversion H; subst s; clear H.
     unfold value_changed in VC.
     assert (Hv : n_value (set_value nd (VInt n)) = Some (VInt n)) by reflexivity.
@@ -2343,3 +2351,62 @@ Proof.
       * rewrite Z.add_0_r in Fi. rewrite F in Fi. inversion Fi; subst. exact R.
       * apply (J3 i' ti); [lia|]. replace (p + 1 + Z.of_nat i') with (p + Z.of_nat (S i')) by lia. exact Fi.
 Qed.
+
+(* ------------------------------------------------------------------------------------------ *)
+(* 15. every formatter that _reverse_engineer_formatting can produce *)
+
+Lemma scan_eletter : forall letters s sc, scan_number letters s = Some sc ->
+  match s_eletter sc with Some a => letters a = true | None => True end.
+Proof.
+  intros letters s sc H. unfold scan_number in H.
+  destruct (take_sign s) as [sg r0]. destruct (span_digits r0) as [d1 r1].
+  destruct (match r1 with
+            | String "."%char t => let (d2, r2) := span_digits t in (true, d2, r2)
+            | _ => (false, "", r1)
+            end) as [[dt d2] r2].
+  destruct (andb (String.eqb d1 "") (String.eqb d2 "")); [discriminate|].
+  destruct r2 as [|a t]; [inversion H; exact I|].
+  destruct (letters a) eqn:La.
+  - destruct (take_sign t) as [es t1]. destruct (span_digits t1) as [ed t2].
+    destruct (andb (negb (String.eqb ed "")) (String.eqb t2 "")); [|discriminate].
+    inversion H. cbn. exact La.
+  - destruct (is_sign a); [|discriminate]. destruct (span_digits t) as [ed t2].
+    destruct (andb (negb (String.eqb ed "")) (String.eqb t2 "")); [|discriminate].
+    inversion H. exact I.
+Qed.
+
+Definition fmt_ok (f : fmt) : Prop :=
+  exponent_length f = exponent_zero_pad f /\
+  (divider f = "" \/ divider f = "e" \/ divider f = "E") /\ 0 <= precision f.
+
+Lemma reverse_float_ok : forall token f, fmt_ok f -> fmt_ok (reverse_float token f).
+Proof.
+  intros token f (H1 & H2 & H3). unfold reverse_float.
+  destruct (scan_number letter_eE token) as [c|] eqn:S.
+  - destruct (andb (negb (String.eqb (s_d1 c) "")) (negb (String.eqb (s_edigits c) ""))).
+    + unfold fmt_ok. cbn [exponent_length exponent_zero_pad divider precision]. split; [|split].
+      * destruct (starts_with "0" (s_edigits c)); [reflexivity | exact H1].
+      * pose proof (scan_eletter letter_eE token c S) as L. destruct (s_eletter c) as [a|]; [|now left].
+        unfold letter_eE in L. apply orb_true_iff in L.
+        destruct L as [L|L]; apply Ascii.eqb_eq in L; subst a; auto.
+      * destruct (s_dot c); [apply slen_nonneg | lia].
+    + destruct (split_dot token) as [[b after]|]; [destruct (Nat.eqb (count_dots after) 0)|];
+        unfold fmt_ok; cbn [exponent_length exponent_zero_pad divider precision];
+        (split; [exact H1 | split; [exact H2 | first [apply slen_nonneg | lia]]]).
+  - destruct (split_dot token) as [[b after]|]; [destruct (Nat.eqb (count_dots after) 0)|];
+      unfold fmt_ok; cbn [exponent_length exponent_zero_pad divider precision];
+      (split; [exact H1 | split; [exact H2 | first [apply slen_nonneg | lia]]]).
+Qed.
+
+(* the hypotheses of the error bounds hold of every formatter format() can be working with *)
+Lemma reverse_formatting_ok : forall nd f, reverse_formatting nd = Some f -> fmt_ok f.
+Proof.
+  intros nd f H. unfold reverse_formatting in H.
+  assert (B : forall vl zp sg, fmt_ok (mkFmt vl 5 zp sg "e" 0 0 false true)).
+  { intros. unfold fmt_ok. cbn. split; [reflexivity|]. split; [right; left; reflexivity | lia]. }
+  destruct (n_tok nd); [discriminate| |];
+    inversion H; destruct (n_isfloat nd); try apply reverse_float_ok; apply B.
+Qed.
+
+Lemma default_fmt_ok : fmt_ok default_fmt.
+Proof. unfold fmt_ok. cbn. split; [reflexivity|]. split; [right; left; reflexivity | lia]. Qed.
